@@ -67,7 +67,11 @@ class LuceneCheck:
 
     @_check_children
     def check_field_group(self, item, parents):
-        if not parents or not isinstance(parents[-1], tree.SearchField):
+        # boosts may sit between the field and its group: field:(a b)^2
+        depth = len(parents)
+        while depth and isinstance(parents[depth - 1], tree.Boost):
+            depth -= 1
+        if not depth or not isinstance(parents[depth - 1], tree.SearchField):
             yield ("FieldGroup misuse, it must be used after SearchField : %s" %
                    (parents[-1] if parents else item))
 
